@@ -323,3 +323,6 @@ def run(ck: Check) -> None:
         if r.impl != w:
             ck.violation("a detached signature produced by GnuPG and transcribed by the library's GPG path is not accepted" if w == "OK"
                          else "a corrupted / wrong-mode GnuPG signature is accepted", {"case": r.case.tag, "impl": r.impl, "expected": w}, f"gnupg:{r.case.tag}:{r.impl}")
+    # the GPG file path, directed (shared with C08): the fresh entry counts whatever the signer's earlier entry looked like; never a signature beside a payload it was not made over
+    from .. import gpgdirected, impl as _impl
+    gpgdirected.run(ck, _impl, _impl.scratch_dir())
